@@ -347,3 +347,72 @@ def _(v):
             mismatches.append((case, op, repr(a), repr(ra), repr(b), repr(rb), repr(x), repr(y)))
     v.prove("abstraction_agrees_with_the_real_package", not mismatches, detail="%d of %d: %s" % (len(mismatches), count, mismatches[:4]))
     v.prove("refusals_were_exercised", raised >= 50 and count >= 1000, detail="%d refusals in %d cases" % (raised, count))
+
+
+@harness("C09", "rescale", functions=[U + ":rescale"], div_mode="assume", samples=0)
+def _(v):
+    """rescale: a quantity is expressed in the target unit (same physical value), a plain number is returned only for a target that is exactly
+    one, and a plain number with a dimensional target is refused ('raises instead of returning a number')"""
+    from chempy import units as CU
+    from pyvc.qmodel import si_value
+    t = _table(v)
+    d = (1, 0, -1, 0, 0, 0, 0)
+    u1, u2 = t.generic("u1", d), t.generic("u2", d)
+    other = t.generic("other", (0, 1, 0, 0, 0, 0, 0))
+    m = v.real("m", lo=-1e6, hi=1e6)
+    r = v.call(CU.rescale, m * u1, u2)
+    v.prove("result_is_in_the_target_unit", r.u == {"u2": 1})
+    v.prove_identity("same_physical_value", si_value(r), si_value(m * u1))
+    v.prove("incompatible_target_refused", v.run(CU.rescale, m * u1, other).raised(ValueError))
+    v.prove("plain_number_and_one", v.call(CU.rescale, 3.5, 1) == 3.5)
+    out = v.run(CU.rescale, 3.5, u1)
+    v.prove("plain_number_with_dimensional_target_refused", not out.returned, detail=repr(out.value if out.returned else None))
+
+
+@harness("C09", "helpers_on_the_real_package", functions=[U + ":rescale", U + ":polyfit", U + ":Backend.__getattr__", U + ":default_unit_in_registry", U + ":unitless_in_registry", U + ":get_derived_unit"], kind="data")
+def _(v):
+    """behaviours that involve the real quantities/numpy objects: refusal of a plain number with a dimensional target, keyword arguments of the
+    numerical routine are passed on, every positional argument of a wrapped function is made unitless, and a registry is read as it is NOW"""
+    import math
+    import numpy as np
+    from chempy import units as CU
+    from chempy.units import default_units as u, SI_base_registry
+    refused = []
+    for target in (u.metre, u.km, 2 * u.metre, u.percent):
+        try:
+            CU.rescale(3.0, target)
+            refused.append(False)
+        except Exception:
+            refused.append(True)
+    v.prove("rescale_plain_number_refused_unless_target_is_one", all(refused) and CU.rescale(3.0, 1) == 3.0 and CU.rescale(3.0, 1.0) == 3.0)
+    x = np.array([0.0, 1.0, 2.0, 3.0]) * u.s
+    y = np.array([-1.4, 1.7, 4.8, 100.0]) * u.m
+    w = [1, 1, 1, 1e-6]
+    ref = np.polyfit([0.0, 1.0, 2.0, 3.0], [-1.4, 1.7, 4.8, 100.0], 1, w=w)
+    got = CU.polyfit(x, y, 1, w=w)
+    v.prove("polyfit_weights_are_used", abs(float(CU.to_unitless(got[0], u.m / u.s)) - ref[0]) < 1e-9 and abs(float(CU.to_unitless(got[1], u.m)) - ref[1]) < 1e-9, detail=repr(got))
+    quad = CU.polyfit(x, np.array([1.0, 2.0, 7.0, 16.0]) * u.m, 2)
+    refq = np.polyfit([0.0, 1.0, 2.0, 3.0], [1.0, 2.0, 7.0, 16.0], 2)
+    v.prove("polyfit_degree_two_highest_power_first", all(abs(float(CU.to_unitless(c, u.m / u.s ** (2 - i))) - refq[i]) < 1e-9 for i, c in enumerate(quad)))
+    be = CU.Backend("math")
+    try:
+        vals = (be.pow(3.0, 2000 * u.m / u.km), be.atan2(1, 1000 * u.mm / u.m))
+        ok2, det = abs(vals[0] - 9.0) < 1e-12 and abs(vals[1] - math.pi / 4) < 1e-12, repr(vals)
+    except Exception as ex:
+        ok2, det = False, repr(ex)
+    v.prove("backend_second_argument_made_unitless", ok2, detail=det)
+    try:
+        be.pow(2.0, 3 * u.metre)
+        ok = False
+    except Exception:
+        ok = True
+    v.prove("backend_dimensional_second_argument_refused", ok)
+    reg = dict(SI_base_registry)
+    first = float(CU.unitless_in_registry(3 * u.molar, reg))
+    reg["length"] = u.decimetre
+    second = float(CU.unitless_in_registry(3 * u.molar, reg))
+    du = CU.default_unit_in_registry(3 * u.molar, reg)
+    v.prove("registry_edited_in_place_is_read_again", abs(first - 3000.0) < 1e-9 and abs(second - 3.0) < 1e-12 and abs(float(CU.to_unitless(du, u.mol / u.decimetre ** 3)) - 1) < 1e-12
+            and abs(float(CU.to_unitless(CU.get_derived_unit(reg, "concentration"), u.molar)) - 1) < 1e-12, detail="%r %r %r" % (first, second, du))
+    other = dict(SI_base_registry, time=u.minute)
+    v.prove("another_registry_alive_at_the_same_time", abs(float(CU.unitless_in_registry(2 / u.second, other)) - 120.0) < 1e-9 and abs(float(CU.unitless_in_registry(2 / u.second, reg)) - 2.0) < 1e-12)
